@@ -1340,7 +1340,8 @@ class BackendZ3(Backend):
     @staticmethod
     @condom
     def _op_raw_StrConcat(*args):
-        return z3.Concat(*args)
+        # z3.Concat needs at least two arguments
+        return args[0] if len(args) == 1 else z3.Concat(*args)
 
     @staticmethod
     @condom
